@@ -43,6 +43,9 @@ pub struct Upstream {
     /// "whole" | "onebyte" | "fixed:k" | "random:n"
     #[serde(default)]
     pub seg: String,
+    /// late-stall: percentage of the timeout the upstream waits before sending the partial response
+    #[serde(default)]
+    pub delay_ms: u64,
 }
 
 #[derive(Serialize, Deserialize, Clone, Debug)]
@@ -166,6 +169,13 @@ fn run_upstream(l: TcpListener, up: Upstream, log: Arc<Mutex<UpLog>>, rng_seed: 
             write_all(&mut s, &wire[..k]);
             humsim::thread::sleep(Duration::from_secs(3600));
         }
+        "late-stall" => {
+            // nothing for a fraction of the timeout, then part of the response, then silence
+            humsim::thread::sleep(Duration::from_millis(up.delay_ms));
+            let k = up.cut.clamp(1, wire.len().saturating_sub(1).max(1));
+            write_all(&mut s, &wire[..k.min(wire.len())]);
+            humsim::thread::sleep(Duration::from_secs(3600));
+        }
         "trickle" => {
             for b in wire.iter() {
                 if !write_all(&mut s, &[*b]) {
@@ -192,18 +202,18 @@ impl Prop for C09 {
         }
     }
     fn rule(&self) -> &'static str {
-        "One case = one client request (C02 generator) proxied to one scripted upstream behaviour. Run indices walk the cut offsets of generated valid responses (39 status codes; Content-Length / chunked with random chunkings and hex case / close-delimited / body-less) so that, for every generated response in the batch, EVERY byte offset is cut once by FIN and once by RST; interleaved with the other behaviours: valid (closing and keep-alive upstreams), garbage (8 kinds), connection refused, black-holed SYN, accept-then-silence, accept-then-close, stall after k bytes, one byte per 50 virtual ms; through proxy_request directly and through the server's proxy_handler (prefix stripping), plus target-selection cases (1..4 targets, 1..8 threads through the real EqMutex<LoadBalancer>). Distinct = distinct (behaviour, status, framing, cut offset class, outcome); non-trivial = the upstream accepted a connection or a fault was injected."
+        "One case = one client request (C02 generator) proxied to one scripted upstream behaviour. Run indices walk the cut offsets of generated valid responses (39 status codes; Content-Length / chunked with random chunkings and hex case / close-delimited / body-less) so that, for every generated response in the batch, EVERY byte offset is cut once by FIN and once by RST; interleaved with the other behaviours: valid (closing and keep-alive upstreams), garbage (8 kinds), connection refused, black-holed SYN, accept-then-silence, accept-then-close, stall after k bytes, nothing for 30..90% of the timeout then a partial response then silence, one byte per 50 virtual ms; through proxy_request directly and through the server's proxy_handler (prefix stripping), plus target-selection cases (1..4 targets, 1..8 threads through the real EqMutex<LoadBalancer>). Distinct = distinct (behaviour, status, framing, cut offset class, outcome); non-trivial = the upstream accepted a connection or a fault was injected."
     }
     fn assumptions(&self) -> Vec<String> {
         vec![
-            "deadlines are virtual time; 'within the timeout' means call duration <= timeout + 1 s slack".into(),
+            "deadlines are virtual time; 'within the timeout' means call duration <= timeout + 100 ms + 10% (virtual time has no scheduling noise beyond per-decision CPU ticks)".into(),
             "status codes are drawn from the 39 Humphrey models".into(),
             "a cut response may be relayed only if the cut came after its last byte".into(),
             "epochs are restricted to 1970..2096 so the server's LCG seed arithmetic stays in range".into(),
         ]
     }
     fn expected_counters(&self) -> Vec<&'static str> {
-        vec!["c09.valid", "c09.cut_fin", "c09.cut_rst", "c09.garbage", "c09.refuse", "c09.blackhole", "c09.silence", "c09.accept_close", "c09.stall", "c09.trickle", "c09.handler_mode", "c09.balance_mode", "c09.framing.chunked", "c09.framing.close", "c09.framing.cl", "c09.framing.none", "c09.keepalive_upstream", "net.connect_refused", "net.connect_blackholed", "net.rst_sent"]
+        vec!["c09.valid", "c09.cut_fin", "c09.cut_rst", "c09.garbage", "c09.refuse", "c09.blackhole", "c09.silence", "c09.accept_close", "c09.stall", "c09.late-stall", "c09.trickle", "c09.handler_mode", "c09.balance_mode", "c09.framing.chunked", "c09.framing.close", "c09.framing.cl", "c09.framing.none", "c09.keepalive_upstream", "net.connect_refused", "net.connect_blackholed", "net.rst_sent"]
     }
     fn real_vs_stub(&self) -> (Vec<&'static str>, Vec<&'static str>) {
         (vec!["humphrey::http::proxy::proxy_request", "Response::from_stream + parse_chunk", "From<Request> for Vec<u8>", "humphrey_server::proxy::{proxy_handler, LoadBalancer::select_target, EqMutex}", "Lcg"], vec!["TcpStream / connect_timeout / timeouts (humsim::net)", "Instant/SystemTime (virtual)", "the upstream is a scripted reference server"])
@@ -218,7 +228,7 @@ impl Prop for C09 {
         let wire_len = resp.render().len();
         let mut rng = Rng::new(run_seed(seed, "C09", idx));
         let req = gen_model(&mut rng, Tier::Quick);
-        let mut up = Upstream { kind: "valid".into(), resp, cut: 0, cut_kind: "fin".into(), garbage: String::new(), seg: ["", "", "onebyte", "random:4", "fixed:7"][rng.usize_below(5)].into() };
+        let mut up = Upstream { kind: "valid".into(), resp, cut: 0, cut_kind: "fin".into(), garbage: String::new(), seg: ["", "", "onebyte", "random:4", "fixed:7"][rng.usize_below(5)].into(), delay_ms: 0 };
         let mut mode = "direct".to_string();
         // first 2*min(wire_len,150) indices of a batch: cut at offset k by fin / rst
         let ncut = wire_len.min(150) as u64;
@@ -235,8 +245,9 @@ impl Prop for C09 {
                 61..=65 => "blackhole",
                 66..=72 => "silence",
                 73..=78 => "accept-close",
-                79..=86 => "stall",
-                87..=92 => "trickle",
+                79..=83 => "stall",
+                84..=88 => "late-stall",
+                89..=92 => "trickle",
                 _ => "valid",
             }
             .into();
@@ -259,6 +270,8 @@ impl Prop for C09 {
         // virtual CPU cost per decision is kept small: a byte-wise transfer of a 64 KiB request is
         // tens of thousands of decisions and must stay well inside the shortest timeout
         sim.cpu_tick_max_ns = Some(400);
+        // (a percentage of the effective timeout; resolved in execute)
+        up.delay_ms = [30u64, 50, 70, 90][rng.usize_below(4)];
         // the network itself is fast relative to the timeout (slowness is the upstream's script)
         sim.latency_max_ns = sim.latency_max_ns.map(|l| l.min(timeout_ms * 1_000_000 / 40));
         let scn = Scn {
@@ -302,6 +315,8 @@ impl Prop for C09 {
             model.path = format!("{}{}", prefix, model.path.trim_start_matches('/'));
         }
         let model2 = model.clone();
+        let mut scn2 = scn2;
+        scn2.upstream.delay_ms = timeout_ms * scn.upstream.delay_ms.clamp(10, 95) / 100;
         let outcome = sim::run(scn.sim.to_config(), move || {
             let scn = scn2;
             match scn.upstream.kind.as_str() {
@@ -347,7 +362,7 @@ impl Prop for C09 {
         if kind == "valid" && self_delimiting(&up.resp) && up.cut % 2 == 1 {
             rr.count("c09.keepalive_upstream", 1);
         }
-        let tag = format!("{}:{}", kind, if kind == "cut" || kind == "valid" || kind == "stall" || kind == "trickle" { up.resp.effective_framing() } else if kind == "garbage" { up.garbage.as_str() } else { "-" });
+        let tag = format!("{}:{}", kind, if kind == "cut" || kind == "valid" || kind == "stall" || kind == "late-stall" || kind == "trickle" { up.resp.effective_framing() } else if kind == "garbage" { up.garbage.as_str() } else { "-" });
         let res = result.lock().unwrap().clone();
         let panics: Vec<String> = outcome.panics.iter().map(|p| format!("{}: {} at {}", p.thread, p.message, p.location)).collect();
         if !panics.is_empty() && outcome.panics.iter().any(|p| p.thread == "driver") {
@@ -356,7 +371,9 @@ impl Prop for C09 {
         } else if outcome.status != sim::EndStatus::Completed {
             rr.violate("C09/R1", format!("proxy-hangs:{}", tag), format!("the run ended {:?}: the proxy call never returned (upstream behaviour {})", outcome.status, tag));
         } else if let Some((status, headers, body, dt)) = res {
-            if dt > (timeout_ms + 1000) * 1_000_000 {
+            // virtual time has no scheduling noise beyond per-decision CPU ticks: the slack is small
+            let slack_ms = 100 + timeout_ms / 10;
+            if dt > (timeout_ms + slack_ms) * 1_000_000 {
                 rr.violate("C09/R1", format!("no-response-within-timeout:{}", tag), format!("the proxy call took {} virtual ms with a timeout of {} ms (upstream behaviour {})", dt / 1_000_000, timeout_ms, tag));
             }
             let wire = up.resp.render();
